@@ -230,9 +230,9 @@ class LiftGen:
             return s.L('ECall', func=mkbox(callee), args=PyVec([a]), ty=s.ty('TInt32')), [('call', 'pick%d' % me)] + ta + [('call', '<value>')]
         if k == 'call2':
             a, ta = s.expr(depth - 1); b, tb = s.expr(depth - 1); return s.call('k%d' % me, [a, b]), ta + tb + [('call', 'k%d' % me)]
-        if k == 'add':
+        if k in ('add', 'div', 'sub', 'mul'):
             a, ta = s.expr(depth - 1); b, tb = s.expr(depth - 1)
-            return s.L('EBinary', op=Agg(s.BOP.key, s.BOP.vindex('Add'), []), lhs=mkbox(a), rhs=mkbox(b), ty=s.ty('TInt32')), ta + tb
+            return s.L('EBinary', op=Agg(s.BOP.key, s.BOP.vindex({'add': 'Add', 'div': 'Div', 'sub': 'Sub', 'mul': 'Mul'}[k]), []), lhs=mkbox(a), rhs=mkbox(b), ty=s.ty('TInt32')), ta + tb
         if k == 'tuple':
             a, ta = s.expr(depth - 1); b, tb = s.expr(depth - 1)
             tup = s.L('ETuple', items=PyVec([a, b]), ty=s.ty('TTuple', PyVec([s.ty('TInt32'), s.ty('TInt32')])))
@@ -677,6 +677,8 @@ def obligations():
             Ob('O9.2-block-dce-constif', 'block-level DCE: 1 statement, then if/else with a literal condition and 2 statements per branch, + return', ob_block_dce, ('quick', 'thorough'), 30, dict(nstmts=1, depth=1, forms=('call',), conds=('true', 'false'), branch_n=2)),
             Ob('O9.2-block-dce-switch', 'block-level DCE: 1 statement, then a value switch with two cases (+ default), + return', ob_block_dce, ('quick', 'thorough'), 30, dict(nstmts=1, depth='switch', forms=('atom', 'call'))),
             Ob('O9.2-block-dce-if2', 'block-level DCE: 2 statements, then if/else, + return', ob_block_dce, ('thorough',), 200, dict(nstmts=2, depth=1, forms=('atom', 'call')))]
+    obs += [Ob('O9.3-anf-order-arith-d1', 'ANF evaluates the operands of + - * / left to right', ob_anf_order, ('quick', 'thorough'), 3, dict(depth=1, forms=['call1', 'add', 'div', 'sub', 'mul'], top='call')),
+            Ob('O9.4-go-lowering-arith-d1', 'Go lowering keeps the operand order of + - * /', ob_go_lowering, ('quick', 'thorough'), 5, dict(depth=1, forms=['call1', 'add', 'div', 'sub', 'mul'], top='call'))]
     obs += [Ob('O9.3-anf-order-go', 'ANF keeps a `go` in tail / let / if position', ob_anf_order, ('quick', 'thorough'), 1, dict(depth=0, forms=[], top='go')),
             Ob('O9.4-go-lowering-go', 'Go lowering emits the go statement for a `go` in tail / let / if position', ob_go_lowering, ('quick', 'thorough'), 1, dict(depth=0, forms=[], top='go'))]
     obs += [Ob('O9.4-go-lowering-call-d1', 'Go lowering keeps the effect trace: f(A1, A2), depth 1 (incl. while / if / let)', ob_go_lowering, ('quick', 'thorough'), 10, dict(depth=1, forms=['call1', 'add', 'if', 'let', 'while', 'whilematch', 'unitop', 'and', 'or', 'not', 'less'], top='call')),
